@@ -609,6 +609,7 @@ void Exec::do_step(const Step& st, const Client& cl, int depth) {
               c17 = true;
               back = b2;
               viol("C17", "C17.set_param", "masa_set_param", "value set through C reads back differently, the C++ setter works");
+              viol("C11", "C11.roundtrip.c_api", sol.name + ":" + n, "masa_set_param (C) of " + fmt_ld(v) + " is not what masa_get_param returns afterwards");
             }
           }
           if (!c17) viol("C11", "C11.roundtrip", sol.name + ":" + n, "set " + fmt_ld(v) + " then get returns " + fmt_ld(back));
@@ -648,7 +649,11 @@ void Exec::do_step(const Step& st, const Client& cl, int depth) {
       last_name[prec] = n;
       if (C) {
         orc_eval("C17");
-        if (bits_of(c) != bits_of(x)) viol("C17", "C17.get_param", "masa_get_param", "C returns " + fmt_ld(c) + ", C++ " + fmt_ld(x));
+        if (bits_of(c) != bits_of(x)) {
+          viol("C17", "C17.get_param", "masa_get_param", "C returns " + fmt_ld(c) + ", C++ " + fmt_ld(x));
+          if (bits_of(c) != bits_of(ms<S>(cur->p[n])))
+            viol("C11", "C11.get.c_api", g_sols[cur->sol].name + ":" + n, "masa_get_param (C) returns " + fmt_ld(c) + " but the value last set is " + fmt_ld(cur->p[n]));
+        }
       }
       if (bits_of(x) != bits_of(ms<S>(cur->p[n]))) {
         viol("C11", "C11.get", g_sols[cur->sol].name + ":" + n, "get returns " + fmt_ld(x) + " but the value last set is " + fmt_ld(cur->p[n]));
@@ -768,7 +773,10 @@ void Exec::do_step(const Step& st, const Client& cl, int depth) {
         viol("C11", "C11.sanity", sol.name, "masa_sanity_check returns " + std::to_string(rc) + " while the model " + (bad ? "holds" : "holds no") + " uninitialised scalar / empty vector");
       if (C) {
         orc_eval("C17");
-        if (rcc != rc) viol("C17", "C17.sanity.status", "masa_sanity_check", "C status " + std::to_string(rcc) + " vs C++ status " + std::to_string(rc));
+        if (rcc != rc) {
+          viol("C17", "C17.sanity.status", "masa_sanity_check", "C status " + std::to_string(rcc) + " vs C++ status " + std::to_string(rc));
+          if ((rcc == 0) != !bad) viol("C11", "C11.sanity.c_api", sol.name, "masa_sanity_check (C) returns " + std::to_string(rcc));
+        }
       }
       return;
     }
@@ -871,6 +879,7 @@ void Exec::do_step(const Step& st, const Client& cl, int depth) {
             c17 = true;
             got = g2;
             viol("C17", "C17.set_array", "masa_set_array", "array set through C reads back differently, the C++ setter works");
+            viol("C11", "C11.vec.roundtrip.c_api", g_sols[cur->sol].name + ":" + n, "masa_set_array (C) of length " + std::to_string(vals.size()) + " does not read back as set");
           }
         }
         if (!c17) viol("C11", "C11.vec.roundtrip", g_sols[cur->sol].name + ":" + n, "set_vec of length " + std::to_string(vals.size()) + " reads back with length " + std::to_string(got.size()) + " (status " + std::to_string(rc) + ")");
@@ -908,7 +917,10 @@ void Exec::do_step(const Step& st, const Client& cl, int depth) {
         {
           bool same = cn == (int)got.size();
           for (int i = 0; same && i < cn && i < 64; ++i) same = bits_of(buf[i]) == bits_of((double)got[(size_t)i]);
-          if (!same) viol("C17", "C17.get_array", "masa_get_array", "C array (length " + std::to_string(cn) + ") differs from the C++ vector (length " + std::to_string(got.size()) + ")");
+          if (!same) {
+            viol("C17", "C17.get_array", "masa_get_array", "C array (length " + std::to_string(cn) + ") differs from the C++ vector (length " + std::to_string(got.size()) + ")");
+            if (!unk) viol("C11", "C11.vec.get.c_api", g_sols[cur->sol].name + ":" + n, "masa_get_array (C) does not deliver the vector last set");
+          }
         }
       }
       if (unk) {
